@@ -48,14 +48,21 @@ def parse_rule(line: str) -> dict[str, Any] | None:
         s = s[1:]
     dir_only = s.endswith("/")
     core = s.rstrip("/")
-    anchored = "/" in core
-    return {"raw": ("!" if neg else "") + s, "dir_only": dir_only, "anchored": anchored, "pat": core.lstrip("/"), "neg": neg}
+    if core.startswith("**/") and "/" not in core[3:]:
+        core = core[3:]  # "**/name" means the same as "name"
+    under = core.endswith("/**")
+    if under:
+        core = core[: -len("/**")]  # "dir/**": everything below dir (anchored), not dir itself
+    anchored = "/" in core or under
+    return {"raw": ("!" if neg else "") + s, "dir_only": dir_only and not under, "anchored": anchored, "pat": core.lstrip("/"), "neg": neg, "under": under}
 
 
 def rule_matches(rule: dict[str, Any], rel_from_rule_dir: str, is_dir: bool) -> bool:
     """Does the rule match this very path (not an ancestor)? rel is relative to the rule's dir."""
     if rule["dir_only"] and not is_dir:
         return False
+    if rule.get("under"):
+        return rel_from_rule_dir.startswith(rule["pat"] + "/")
     if rule["anchored"]:
         return rel_from_rule_dir == rule["pat"]
     return fnmatch.fnmatchcase(os.path.basename(rel_from_rule_dir), rule["pat"])
@@ -188,6 +195,12 @@ def gen_tree(rng: random.Random) -> dict[str, Any]:
             # (file-name negations only: re-including a *directory* below which other rules apply is
             # where pathspec and git disagree - that is C18's business, not C17's)
             rules += rng.choice([["*.md", "!README.md"], ["README*", "!README.md"], ["a.*", "!a.md"], ["notes.md", "!notes.md", "notes.md"]])
+        if rng.random() < 0.15:
+            rules.append(rng.choice(["**/draft.md", "**/archive/", "**/notes.md", "**/*.txt"]))
+        if rng.random() < 0.12 and len(dirs) > 1:
+            d = rng.choice(dirs[1:])[len("t/") :]
+            if not any(c in d for c in "*?[]!"):
+                rules.append(d + "/**")
         where = rng.choices(["t", "", "sub"], [70, 15, 15])[0]
         if where == "t":
             entries["t/.flowmarkignore"] = {"txt": "\n".join(rules) + "\n"}
@@ -208,13 +221,27 @@ def gen_tree(rng: random.Random) -> dict[str, Any]:
         if d + "/.flowmarkignore" not in entries:
             rules = rng.sample(["a.md", "b.md", "README*", "*.mdx", "index.*", "notes.md", "big.md", "x/", "sub/"], rng.randint(1, 3))
             entries[d + "/.flowmarkignore"] = {"txt": "\n".join(rules) + "\n"}
+    # the same rules in other clothes: CRLF line ends, trailing blanks after a rule, a file that
+    # is not UTF-8 (no rules at all then), a file with comments and blank lines only
+    v = random.Random(rng.getrandbits(32))
+    for path in [k for k in entries if k.endswith(".flowmarkignore") and "txt" in entries[k]]:
+        r = v.random()
+        txt = entries[path]["txt"]
+        if r < 0.10:
+            entries[path] = {"txt": txt.replace("\n", "\r\n")}
+        elif r < 0.18:
+            entries[path] = {"txt": "\n".join(ln + ("  " if ln and not ln.startswith("#") and i % 2 == 0 else "") for i, ln in enumerate(txt.split("\n")))}
+        elif r < 0.22:
+            entries[path] = {"txt": txt, "enc": "latin-1", "prefix": "# caf\u00e9\n"}
+        elif r < 0.26:
+            entries[path] = {"txt": "# nothing here\n\n   \n# " + txt.replace("\n", " ") + "\n"}
     # an ignore file may itself be a symlink to a shared file kept elsewhere; its rules are still
     # relative to the directory in which the link sits
     for path in [k for k in entries if k.endswith(".flowmarkignore") and "txt" in entries[k]]:
         if rng.random() < 0.12:
             n = sum(1 for k in entries if k.startswith("outside/ign"))
             store = f"outside/ign{n}.txt"
-            entries[store] = {"txt": entries[path]["txt"]}
+            entries[store] = dict(entries[path])
             depth = path.count("/")
             entries[path] = {"l": "../" * depth + store}
     return {"entries": entries, "limit": limit}
@@ -370,8 +397,8 @@ class Ref:
                 with open(path, encoding="utf-8") as f:
                     lines = f.read().splitlines()
                 self._ign_cache[path] = [r for r in (parse_rule(ln) for ln in lines) if r is not None]
-            except OSError:
-                self._ign_cache[path] = None
+            except (OSError, UnicodeDecodeError):
+                self._ign_cache[path] = None  # unreadable / not UTF-8: no rules
         return self._ign_cache[path]
 
     def closest_toolignore(self, start: str) -> tuple[str, list[dict[str, Any]]] | None:
